@@ -308,3 +308,50 @@ def rf11a(run):
                       'generator on a stack that is 8 mod 16 (SIGSEGV at its first movaps)'
                       % ' | '.join(i for i in pre if 'rsp' in i)[:160], file='mir-x86_64.c', line=g['line'])
     return 1
+
+
+# ---------------------------------------------------------------------------------------------
+# RF174: %al of a variadic native call is set right in front of the call
+# ---------------------------------------------------------------------------------------------
+
+def rf174(run):
+    import re
+    rule = 'RF174'
+    run.rule(rule, 'x86-64 SysV, interpreter FFI trampoline (_MIR_get_ff_call): a variadic callee reads in %al how many vector registers carry '
+                   'arguments.  The trampoline sets rax in the same constant template that contains `call *%r11`, in front of the call, with '
+                   'no instruction between them that writes rax — the code generated between the prologue and that template (argument moves, '
+                   'the block copy loop of gen_blk_mov, which counts in rax) is free to use rax as scratch.  Setting it in the prologue '
+                   'makes the callee of a call with a stack-passed block skip saving xmm0–7')
+    tu = run.tu('mir')
+    gl = {}
+    for g in tu.globals:
+        t = tu.type(g['t'])
+        if t.kind == 'array' and 'uint8_t' in t.s and g.get('init') is not None and g['file'].endswith('mir-x86_64.c') and g.get('func') == '_MIR_get_ff_call':
+            gl[g['name']] = g
+    dec = {k: [norm(i) for o, i in disas(template_bytes(g), run.scratch)] for k, g in gl.items() if k != 'iregs'}
+    with_call = [k for k, ins in dec.items() if any(re.match(r'call\s+\*%r11', i) for i in ins)]
+    if len(with_call) != 1:
+        raise F.AnalysisBroken('_MIR_get_ff_call: %d templates contain `call *%%r11`' % len(with_call))
+    ins = dec[with_call[0]]
+    ci = next(k for k, i in enumerate(ins) if re.match(r'call\s+\*%r11', i))
+    sets = [k for k, i in enumerate(ins[:ci]) if re.match(r'mov\s+\$0x[0-9a-f]+,%(rax|eax|al)$', i)]
+    clobber = [i for i in ins[(sets[-1] + 1 if sets else 0):ci] if re.search(r',%(rax|eax|ax|al)$', i) or re.match(r'(xor|sub|add|and|or)\s.*%(rax|eax)$', i)]
+    ok = bool(sets) and not clobber
+    f = tu.func('_MIR_get_ff_call')
+    run.functions_analysed.add(('mir', f.name))
+    run.ob(rule, ('al before call',), ok, {'template': with_call[0], 'text': ' | '.join(ins)})
+    if not ok:
+        run.violation(rule, f, '%al not set in front of the call', 'the template `%s` of _MIR_get_ff_call is [%s]: rax is not set between the '
+                      'generated argument code and `call *%%r11`.  gen_blk_mov leaves rax 0 after copying a stack-passed block, so a '
+                      'variadic callee (printf-like, with doubles) does not save the vector registers and reads garbage' %
+                      (with_call[0], ' | '.join(ins)), line=gl[with_call[0]]['line'])
+    # control: the block copy loop does use rax
+    blk = tu.func('gen_blk_mov')
+    ctrl = False
+    if blk is not None:
+        for g in tu.globals:
+            if g.get('func') == 'gen_blk_mov' and g.get('init') is not None and 'uint8_t' in tu.type(g['t']).s:
+                t_ = [norm(i) for o, i in disas(template_bytes(g), run.scratch)]
+                ctrl = ctrl or any('%rax' in i for i in t_)
+    run.control(rule, 'gen_blk_mov uses rax', ctrl)
+    return 1
